@@ -18,8 +18,12 @@ def expr(e):
     if k == "deref":
         return "(*%s)" % e["p"]
     if k == "un":
+        if e.get("flat"):
+            return "%s%s" % (e["op"], expr(e["e"]))
         return "(%s%s)" % (e["op"], expr(e["e"]))
     if k == "bin":
+        if e.get("flat"):       # printed without parentheses: the text relies on C precedence (family FP)
+            return "%s %s %s" % (expr(e["l"]), e["op"], expr(e["r"]))
         return "(%s %s %s)" % (expr(e["l"]), e["op"], expr(e["r"]))
     if k == "asg":
         op = e["op"] if e["op"] == "=" else e["op"] + "="
